@@ -51,7 +51,7 @@ UNITS = {
     },
     "response_gen": {
         "preludes": ["shims/core.rs", "shims/bytes.rs"],
-        "specs": ["contracts/spec/hv.rs", "contracts/spec/http.rs"],
+        "specs": ["contracts/spec/hv.rs", "contracts/spec/http.rs", "contracts/spec/names_framing.rs"],
         "sources": [
             SYMBOL_SRC,
             ("src/header/mod.rs", ["struct:Header", "consts:Header"]),
@@ -63,7 +63,7 @@ UNITS = {
     },
     "cors": {
         "preludes": ["shims/core.rs", "shims/env.rs"],
-        "specs": ["contracts/spec/hv.rs", "contracts/spec/lookup.rs", "contracts/spec/cors.rs"],
+        "specs": ["contracts/spec/hv.rs", "contracts/spec/lookup.rs", "contracts/spec/cors.rs", "contracts/spec/names_cors.rs"],
         "sources": [
             SYMBOL_SRC,
             ("src/header/mod.rs", ["struct:Header", "consts:Header"]),
@@ -78,7 +78,7 @@ UNITS = {
     },
     "header_list": {
         "preludes": ["shims/core.rs", "shims/env.rs", "shims/time.rs"],
-        "specs": ["contracts/spec/hv.rs", "contracts/spec/lookup.rs", "contracts/spec/cors.rs", "contracts/spec/headers.rs"],
+        "specs": ["contracts/spec/hv.rs", "contracts/spec/lookup.rs", "contracts/spec/cors.rs", "contracts/spec/headers.rs", "contracts/spec/names_hardening.rs"],
         "sources": [
             SYMBOL_SRC,
             ("src/range/mod.rs", ["struct:Range", "consts:Range"]),
@@ -355,6 +355,14 @@ CONTAINMENT_WORDS = ("fs_allowed", "rel_inside", "harmless_suffix", "under_root"
 def owner(unit, f):
     """Which property a failing obligation of a SHARED unit is reported under (None: every property using the unit).
     Every failure has exactly one owner or is reported by all users - nothing is dropped."""
+    # the wire names pinned in contracts/spec/names_*.rs (failures there are located outside the extracted code)
+    if f.fn.startswith("<outside") and '@=="' in f.snippet.replace(" ", ""):
+        if unit == "cors":
+            return ("C11", "C09")
+        if unit == "header_list":
+            return "C10"
+        if unit == "response_gen":
+            return ("C05", "C03", "C15")
     if f.fn.startswith("URL::is_path_inside_root") and f.kind == "postcondition" and f.snippet.replace(" ", "").startswith("inside(path@)==>res"):
         return "C02"        # the guard refuses a path that stays inside: files are not served (C02), containment (C01) is intact
     if any(w in f.snippet for w in CONTAINMENT_WORDS) or f.fn.startswith("URL::is_path_inside_root"):
@@ -364,6 +372,8 @@ def owner(unit, f):
             return "C13"
         if f.fn == "StaticResourceController::is_matching" and f.kind == "postcondition":
             return ("C09", "C02")
+        if "static_status" in f.snippet:
+            return ("C09", "C03", "C02")
         if f.kind in SAFETY_KINDS:
             return "C04"
         # the controller keeps the header frame and a registered status (C10 / C05 / C04); everything else functional is C02
@@ -383,6 +393,19 @@ def owner(unit, f):
         return ("C20", "C04") if f.kind in SAFETY_KINDS else "C16"
     if f.kind == "precondition" and f.snippet.startswith("false@"):
         return "C13"
+    if unit in ("app", "controllers", "forms", "server", "log"):
+        sn = f.snippet.replace(" ", "")
+        # which target / method a built-in endpoint claims: the lookup (C02) and its independence of GET / HEAD / OPTIONS (C09)
+        if f.kind == "postcondition" and (f.fn.endswith("::is_matching") or f.fn.endswith("::is_matching_request")):
+            return ("C09", "C02")
+        if "serves_whole" in sn or "static_match" in sn or "not_builtin" in sn or "static_status" in sn:
+            return ("C02", "C09")
+        if f.kind in SAFETY_KINDS:
+            return ("C04", "C20") if unit == "forms" else "C04"
+        if "frame_ok" in sn or "std_headers" in sn or "fixed_headers" in sn:
+            return ("C10", "C05", "C04")
+        if "registered(" in sn or "is_bad_request" in sn or "response_bytes" in sn or "one_response" in sn or "one_bad_request" in sn or "status_code==404" in sn:
+            return ("C05", "C04")
     return None
 
 
@@ -510,7 +533,7 @@ PROPS = {
         "assumptions": ["std::fs / OpenOptions mutators are not declared at all in the shims: a call to one is an unsupported construct (exit 2), not a silent pass"],
     },
     "C09": {
-        "units": ["static", "response_gen", "cors"],
+        "units": ["static", "response_gen", "cors", "controllers", "app"],
         "level": "proof",
         "falsifier": ["e2e", "response", "cors", "ranges"],
         "case_prefixes": ["c09_", "generate_response", "get_headers", "_process"],
